@@ -135,6 +135,7 @@ def BCmd.noData : BCmd → Prop
   | .get _ => True
   | .setLock _ _ => True
   | .unlock _ => True
+  | .has _ => True
   | _ => False
 
 /-- commands that take no lock -/
@@ -187,6 +188,7 @@ theorem applyCmd_locks_shrink (b : Nat) (c : BCmd) (w : FWorld) (hc : c.noLock) 
   | set k v => exact h
   | deleteMany ks => exact h
   | setMany kvs ttl => exact h
+  | has k => exact h
 
 /-! ### the environment only ever removes foreign lock entries -/
 
